@@ -71,7 +71,7 @@ def stepBld (st : BRun) (q : String × String) : BRun :=
   | k :: rest =>
     let a := (String.ofList rest).splitOn ","
     let parts := ans.splitOn ":"
-    if k = 'I' then
+    if k = 'I' ∨ (k = 'R' ∧ st.b.isSome) then
       match a.map String.toNat? with
       | [some sc, some fl] =>
         match init sc fl with
